@@ -14,7 +14,10 @@ API (everything random derives from the rng passed in):
             .const (True when every locale holds a literal of one type: the const accessor chain exists)
       value = ("str", items)  items in checks/parsegen.py form (("T", text) | ("V", w1, name, w2, None) |
                               ("C", w1, name, w2, kids, w0', w1', w2')) — the source AST of the translation string
-            | ("lit", python int/bool)  a JSON number / boolean
+            | ("lit", python bool/int/float)  a JSON boolean / number (non-negative int = unsigned, negative = signed, float =
+              f64).  Literal keys come in classes: one literal type in every locale (bool / uint / int / float: such a key has
+              the const accessor chain and goes through LitWrapper) or MIXED types across locales (incl. a plain text): the
+              zero-field builder path.  rust_display(v) is the canonical printing: Rust's `{}` of the parsed value.
             | ("range", type or None, [(items, conds)])  a range table (every locale of such a key holds one, same count
               type); conds = list of ("exact", n) | ("bounds", lo|None, hi|None, hi_inclusive); [] = the fallback `_` (last arm)
             | ("plural", ordinal, {form: items})  `key_one`/`key_ordinal_one`... and `key_other` (always present); a plural key
@@ -146,6 +149,36 @@ def count_display(n):
     return str(n)
 
 
+LIT_POOLS = {
+    "bool": [True, False],
+    "uint": [0, 5, 12345678901, 18446744073709551615],
+    "int": [-3, -1, -9223372036854775808],
+    # whole, >= 1e16 and < 1e-4 values print differently under `{:?}` and `{}`
+    "float": [2.0, 4.0, 1e16, 1e-5, 59.89, 0.5, -2.5, 1.5e-7, 123456789.125, 1e21, 1e300, 100.0, 3e-320],
+}
+
+
+def rust_display(v):
+    """Rust `{}` of a bool / u64 / i64 / f64 literal (floats: shortest round-trip digits, never an exponent)"""
+    if isinstance(v, bool):
+        return "true" if v else "false"
+    if isinstance(v, float):
+        from decimal import Decimal
+        t = format(Decimal(repr(v)), "f")
+        if "." in t:
+            t = t.rstrip("0").rstrip(".")
+        return t if t not in ("", "-") else t + "0"
+    return str(v)
+
+
+def _lit_value(rng, cls):
+    if cls == "mixed":
+        cls = rng.choice(["bool", "uint", "int", "float", "text"])
+    if cls == "text":
+        return ("str", [("T", rng.choice(["texte", "text not number", "2.0"]))])
+    return ("lit", rng.choice(LIT_POOLS[cls]))
+
+
 def names_of(items, vs, cs):
     for it in items:
         if it[0] == "V":
@@ -193,7 +226,7 @@ class PKey:
             if v[0] in ("absent", "null"):
                 continue
             if v[0] == "lit":
-                kinds.add("bool" if isinstance(v[1], bool) else "int" if v[1] < 0 else "uint")
+                kinds.add("bool" if isinstance(v[1], bool) else "float" if isinstance(v[1], float) else "int" if v[1] < 0 else "uint")
             elif v[0] in ("range", "plural"):
                 kinds.add("interp")
             elif all(it[0] == "T" for it in v[1]):
@@ -249,12 +282,10 @@ def gen_project(rng, n_keys, locales, namespaces=None, wide=False, inherits=None
             path = (rng.choice(p.namespaces),) + path
         k = PKey(i, path)
         kind = rng.random()
+        lit_cls = rng.choice(["bool", "uint", "int", "float", "float", "mixed", "mixed"])
         for loc in p.locales:
-            if kind < 0.08:
-                k.values[loc] = ("lit", rng.choice([5, 0, 12345678901, -3, True, False]) if kind < 0.06 or loc == p.locales[0]
-                                 else rng.choice([-7, "x"]))
-                if k.values[loc][1] == "x":
-                    k.values[loc] = ("str", [("T", "text not number")])
+            if kind < 0.1:
+                k.values[loc] = _lit_value(rng, lit_cls)
             elif kind < 0.2:
                 k.values[loc] = ("str", [("T", rng.choice(TEXTS) + rng.choice(TEXTS))] if rng.random() < 0.9 else [])
             elif kind < 0.3:
@@ -283,6 +314,22 @@ def gen_project(rng, n_keys, locales, namespaces=None, wide=False, inherits=None
         p.keys.append(k)
     # renamed counts: `$t(target, {"count": "{{ n }}"})` to a plural key outside any group; both stay defined everywhere
     nogap = set()
+    # every project has, whatever the draw above: a float literal key whose values include whole / huge / tiny numbers (top
+    # level and in a group), one literal key per other type, and a key of mixed literal types; they take part in the gaps below
+    gp = next((k.path[:-1] for k in p.keys if len(k.path) > (2 if p.namespaces else 1)), None)
+    base = (p.namespaces[0],) if p.namespaces else ()
+    for cls, path in [("float", base), ("float", gp), ("uint", base), ("int", gp), ("bool", base), ("mixed", base), ("mixed", gp)]:
+        if path is None:
+            continue
+        k = PKey(len(p.keys), path + ("l%d" % len(p.keys),))
+        for j, loc in enumerate(p.locales):
+            if cls == "float":
+                k.values[loc] = ("lit", [2.0, 1e16, 1e-5, 4.0][j % 4] if j < 4 else rng.choice(LIT_POOLS["float"]))
+            elif cls == "mixed":
+                k.values[loc] = [("lit", True), ("str", [("T", "texte")]), ("lit", 3), ("lit", 2.0), ("lit", -1)][j % 5]
+            else:
+                k.values[loc] = _lit_value(rng, cls)
+        p.keys.append(k)
     if with_plurals:
         for ordinal in (False, True):
             t = PKey(len(p.keys), ((p.namespaces[0],) if p.namespaces else ()) + ("p%d" % len(p.keys),))
@@ -525,7 +572,9 @@ def write_crate(d, project, assignments=2, name="h_probe"):
                 json.dump(_tree(project, loc, ns), fh, ensure_ascii=False, indent=1)
     htoml = open(os.path.join(core.HARNESS, "h_rt", "Cargo.toml")).read()
     deps = htoml[htoml.index("[dependencies]"):]
-    # mutation testing only: build the probe against a modified scratch copy of /repo (never set by ./check users)
+    # mutation testing only: build the probe against a modified scratch copy of /repo (never set by ./check users).
+    # Use a fresh path per mutation and `touch` the copied sources: cargo's freshness test is mtime-based, a copy that keeps
+    # /repo's mtimes at a path used before silently reuses the artefacts of the earlier mutation.
     if os.environ.get("VERIF_PROBE_REPO"):
         deps = deps.replace('"/repo/', '"%s/' % os.environ["VERIF_PROBE_REPO"].rstrip("/"))
     wtoml = open(os.path.join(core.HARNESS, "Cargo.toml")).read()
